@@ -136,9 +136,9 @@ class RefGate:
     """Annex B.  B.1: after a packet passed at t_pg the gate opens at t_go = t_pg + min(max(T_on_pp/delta, 0.025), 1).
     B.2: when delta changes while the gate is closed, t_go = t_pg + min(max(delta_old/delta_new * (t_go - t_pg), 0.025), 1).
 
-    RELAX: B.2 is taken from the citation in the docstring of the code under test (the text of Annex B was not
+    B.2 is taken from the citation in the docstring of the code under test (the text of Annex B was not
     available).  The other reading, re-evaluating B.1 with the new delta (t_pg + min(max(T_on_pp/delta_new, .025), 1)),
-    differs only when a clamp was active; both are tracked and any opening instant between the two is accepted.
+    differs only when a clamp was active; it is tracked (probe b2-forms-differ) but no longer accepted.
     Intervals are kept as numbers (not as t_go - t_pg) together with a bound `err` on what float rounding of
     absolute times may contribute (at Unix-epoch magnitudes one ulp is 2.4e-7 s and B.2 multiplies it by the
     delta ratio).
@@ -160,8 +160,10 @@ class RefGate:
         """(lo, hi, tol): closed for sure before lo - tol, open for sure from hi + tol."""
         if self.t_pg is None:
             return None
-        lo = self.t_pg + min(self.iv_r, self.iv_d)
-        hi = self.t_pg + max(self.iv_r, self.iv_d)
+        # Judged against the rescaling form only (the equation cited as B.2 by the code under test and demanded "exactly"
+        # by the statement); iv_d is still tracked for the `b2-forms-differ` probe.  Accepting any instant between both
+        # forms hid seeded breakage C19c (closed interval recomputed as T_on_pp/delta_new after a clamped B.1).
+        lo = hi = self.t_pg + self.iv_r
         tol = 1.0e-9 + self.err + 8.0 * math.ulp(hi)
         return lo, hi, tol
 
